@@ -411,17 +411,25 @@ func (r *Run) query(extra *Term, install bool) Res {
 		w.ex.poolPut(vars, w.ctx, vals)
 	}
 	if res == Unknown {
-		res = w.fallbackQuery(r, conj, extra)
+		fvars := make([]*Term, len(vars))
+		for i, v := range vars {
+			fvars[i] = w.ctx.varByID[v]
+		}
+		var fvals []uint64
+		res, fvals = w.fallbackQuery(r, conj, extra, fvars)
 		if res == Unknown {
 			panic(abortRun{"solver returned unknown"})
 		}
 		if res == Sat {
-			// no model from the fallback
-			w.ex.cachePut(k, qres{res: Sat})
-			if install {
-				r.invalidate(extra)
+			if fvals == nil {
+				// no model from the fallback
+				w.ex.cachePut(k, qres{res: Sat})
+				if install {
+					r.invalidate(extra)
+				}
+				return Sat
 			}
-			return Sat
+			vals = fvals
 		}
 	}
 	w.ex.cachePut(k, qres{res: res, vals: vals})
